@@ -67,6 +67,8 @@ def run_solve(st, opts):
     else:
         xt = rand_tt(tt, N, cfg["r"], gen, dt)
         b = (A @ xt).round(1e-14)
+    if cfg["data"] == "zero":
+        b = tt.zeros(N, dtype=dt)
     if cfg.get("scale", "unit") == "small":
         # the residual bound is relative to ||b|| and invariant under scaling of A: badly scaled data are inputs like any other
         b = 1e-5 * b
@@ -115,7 +117,8 @@ def run_solve(st, opts):
                 stats["path:iterative-local-solver"] = stats.get("path:iterative-local-solver", 0) + 1
             if any(e["use_full"] for e in t["ev"]):
                 stats["path:direct-local-solver"] = stats.get("path:direct-local-solver", 0) + 1
-        res = torch.linalg.norm(Ad @ project.dense(x.cores).reshape(-1) - bd).item() / torch.linalg.norm(bd).item()
+        nb_ = torch.linalg.norm(bd).item()
+        res = torch.linalg.norm(Ad @ project.dense(x.cores).reshape(-1) - bd).item() / (nb_ if nb_ > 0 else 1.0)     # (b = 0: the solution is 0, absolutely)
         key = "res_over_eps_max"
         stats[key] = max(stats.get(key, 0), res / eps)
         if res > TOL["C12"] * eps + 1e4 * U64:
@@ -139,6 +142,8 @@ def run_divide(st, opts):
     x = rand_tt(tt, N, cfg["r"], gen, dt)
     z = rand_tt(tt, N, max(1, cfg["r"] // 2), gen, dt, scale=0.7)
     y = (1.0 + z * z).round(1e-14)                    # entries >= 1: bounded away from zero
+    if cfg["data"] == "zero":
+        x = tt.zeros(N, dtype=dt)
     if cfg.get("scale", "unit") == "small":
         x = 1e-5 * x
         y = 1e3 * y
